@@ -16,4 +16,4 @@ Extraction "model.ml"
   TopicMatch.valid_name_spec TopicMatch.valid_filter_spec Topic.topic_match
   Auth.au_model_outs Auth.au_start Auth.au_step Auth.au_run Auth.au_validate Auth.broker_connect Auth.load_path Auth.au_load
   C19O.c19_ok C19O.o_step C19O.file_wf C19O.cred_ok C19O.c19_connect_ok C19O.connect_servable
-  C19O.kf_pwfile_cwd C19O.kf_unknown_version C19O.kf_authmethod_present C19O.known_version.
+  C19O.o_avail C19O.kf_authmethod_present C19O.known_version.
